@@ -88,12 +88,13 @@ class LiteralToken(RegexpBaseToken):
 
         if self.value[2]:
             real_value = int(self.value[2])
-            if self.value[5]:
-                real_value += float(f'0.{self.value[5]}')
-            if self.value[7]:
-                # TODO in theory, the degree can be calculated using the expression
-                real_value *= 10 ** int(self.value[7])
-            real_value = str(real_value)
+            if self.value[5] or self.value[7]:
+                # the literal denotes the double nearest to its decimal text; rebuilding it
+                # arithmetically (int + fraction) * 10 ** exponent accumulates rounding errors
+                real_value = float(f"{self.value[2]}.{self.value[5] or '0'}e{self.value[7] or '0'}")
+                if real_value == float('inf'):
+                    raise E2PyclParserException('Number literal is out of range')
+            real_value = repr(real_value)
         elif self.value[1] or self.value[0] == '""':
             real_value = f'\'{self.value[1]}\''
         elif self.value[8]:
